@@ -4,7 +4,13 @@
  *   dtable <tableLog> <c0,c1,...>            -> ok cells=<symbol:nbBits:newState,...>
  *   enc <tableLog> <c0,c1,...> <s0,s1,...>   -> ok <hex of the bit stream>   (one table driven as ZSTD_encodeSequences drives each of its tables, no extra bits)
  *   wksp <tableLog> <c0,c1,...>              -> ok wkspSize=<FSE_BUILD_CTABLE_WORKSPACE_SIZE> overrun=<bytes FSE_buildCTable_wksp wrote beyond it>   (C side only)
- * counts are normalised counts (-1 allowed), maxSymbolValue = number of counts - 1.  `err <class>` on an error code. */
+ *   ncount <tableLog> <c0,c1,...>            -> ok <hex of the table description>   FSE_writeNCount(buffer, NCOUNT_ROOM (>= FSE_NCountWriteBound), counts,
+ *                                               maxSymbolValue = number of counts - 1, tableLog); the Lean side is Model/NCountW.lean
+ *   rncount <maxSV> <hex|->                  -> ok log=<tableLog> norm=<c0,...,c_maxSVout> used=<bytes read>   FSE_readNCount on exactly those bytes
+ *                                               (hbSize = number of bytes, *maxSVPtr = maxSV, normalizedCounter = short[maxSV + 1]); FSE_readNCount_bmi2
+ *                                               with bmi2 = 1 must agree (else `err bmi2-differs`)
+ * counts are normalised counts (-1 allowed), maxSymbolValue = number of counts - 1.  `err <class>` on an error code (the class names of
+ * zvh_common.h, plus `maxSymbolValue_tooSmall`). */
 #define FSE_STATIC_LINKING_ONLY
 #include "fse.h"
 #include "bitstream.h"
@@ -28,6 +34,35 @@ static long* parse_list(const char* s, size_t* n) {
     *n = k; return v;
 }
 
+/* zv_errclass plus the one error code of FSE_readNCount it does not name */
+static const char* fse_errclass(size_t r) {
+    return ZSTD_getErrorCode(r) == ZSTD_error_maxSymbolValue_tooSmall ? "maxSymbolValue_tooSmall" : zv_errclass(r);
+}
+
+/* rncount <maxSV> <hex> */
+static void op_rncount(const char* a1, const char* a2) {
+    unsigned const maxSV = (unsigned)strtoul(a1, NULL, 10);
+    size_t n = 0, r[2]; unsigned char* src; short* norm[2]; unsigned msv[2], tl[2]; int b;
+    if (maxSV > 255) { printf("err usage\n"); return; }
+    src = zv_unhex(a2, &n);
+    for (b = 0; b < 2; b++) {
+        norm[b] = (short*)malloc((maxSV + 1) * sizeof(short));
+        memset(norm[b], 0x55, (maxSV + 1) * sizeof(short));
+        msv[b] = maxSV; tl[b] = 0;
+        r[b] = FSE_readNCount_bmi2(norm[b], &msv[b], &tl[b], src, n, b);
+    }
+    if (FSE_isError(r[0]) != FSE_isError(r[1]) || (FSE_isError(r[0]) && ZSTD_getErrorCode(r[0]) != ZSTD_getErrorCode(r[1]))) printf("err bmi2-differs\n");
+    else if (FSE_isError(r[0])) printf("err %s\n", fse_errclass(r[0]));
+    else if (r[0] != r[1] || msv[0] != msv[1] || tl[0] != tl[1] || msv[0] > maxSV || memcmp(norm[0], norm[1], (msv[0] + 1) * sizeof(short))) printf("err bmi2-differs\n");
+    else {
+        unsigned u;
+        printf("ok log=%u norm=", tl[0]);
+        for (u = 0; u <= msv[0]; u++) printf("%s%d", u ? "," : "", (int)norm[0][u]);
+        printf(" used=%zu\n", r[0]);
+    }
+    free(norm[0]); free(norm[1]); free(src);
+}
+
 /* allocate and build the CTable of (norm, maxSV, tableLog); returns NULL and sets *err on an error code.
  * The workspace size handed to FSE_buildCTable_wksp is exactly FSE_BUILD_CTABLE_WORKSPACE_SIZE(maxSV, tableLog).  That macro rounds
  * (maxSymbolValue + 2) / 2 down: for an odd maxSymbolValue and no -1 count (the 8-bytes-at-a-time spreading branch) the last
@@ -35,6 +70,7 @@ static long* parse_list(const char* s, size_t* n) {
  * carries WKSP_SLACK guard bytes behind the declared size so that the table tie is not disturbed; *overrun = number of guard bytes
  * written (what the `wksp` op reports). */
 #define WKSP_SLACK 16
+#define NCOUNT_ROOM 1024     /* FSE_NCountWriteBound(255, 15) = 486, FSE_NCOUNTBOUND = 512 */
 static FSE_CTable* build_ctable(const short* norm, unsigned maxSV, unsigned tableLog, size_t* err, size_t* overrun) {
     size_t const ctU32 = FSE_CTABLE_SIZE_U32(tableLog, maxSV);
     size_t const wkspSize = FSE_BUILD_CTABLE_WORKSPACE_SIZE(maxSV, tableLog);
@@ -61,6 +97,7 @@ int main(void) {
         if (!op) continue;
         a1 = strtok_r(NULL, " ", &sv); a2 = strtok_r(NULL, " ", &sv); a3 = strtok_r(NULL, " ", &sv);
         if (!a1 || !a2) { printf("err usage\n"); continue; }
+        if (!strcmp(op, "rncount")) { op_rncount(a1, a2); continue; }
         tableLog = (unsigned)strtoul(a1, NULL, 10);
         cl = parse_list(a2, &nc);
         if (nc == 0 || nc > 256 || tableLog < 1 || tableLog > 15) { printf("err usage\n"); free(cl); continue; }
@@ -91,6 +128,17 @@ int main(void) {
             size_t err, over; FSE_CTable* ct = build_ctable(norm, maxSV, tableLog, &err, &over);
             if (!ct) printf("err %s\n", zv_errclass(err));
             else { printf("ok wkspSize=%zu overrun=%zu\n", (size_t)FSE_BUILD_CTABLE_WORKSPACE_SIZE(maxSV, tableLog), over); free(ct); }
+        } else if (!strcmp(op, "ncount")) {
+            /* a buffer of at least FSE_NCountWriteBound bytes: FSE_writeNCount takes the writeIsSafe path (no capacity checks) */
+            BYTE* dst = (BYTE*)malloc(NCOUNT_ROOM); size_t r;
+            memset(dst, 0, NCOUNT_ROOM);
+            if (NCOUNT_ROOM < FSE_NCountWriteBound(maxSV, tableLog)) printf("err usage\n");
+            else {
+                r = FSE_writeNCount(dst, NCOUNT_ROOM, norm, maxSV, tableLog);
+                if (FSE_isError(r)) printf("err %s\n", fse_errclass(r));
+                else { printf("ok "); zv_puthex(dst, r); printf("\n"); }
+            }
+            free(dst);
         } else if (!strcmp(op, "dtable")) {
             size_t const dtU32 = FSE_DTABLE_SIZE_U32(tableLog);
             size_t const wkspSize = FSE_BUILD_DTABLE_WKSP_SIZE(tableLog, maxSV);
